@@ -683,6 +683,7 @@ impl Global {
                 "rule": self.rule,
                 "samples": self.stats.samples,
                 "exhaustive": self.any_exhaustive && self.exhaustive_all,
+                "exhaustive_note": "true only if every stage of the run was a completed enumeration; per-stage completeness is under stages[].complete",
                 "stages": self.stage_info,
                 "labels": labels,
                 "worst_error_over_tolerance": worst,
